@@ -33,11 +33,17 @@ POST = [
 LOOPS = {
     0: {'inv': ['i >= 1']},
     1: {'inv': ['forall(lambda j: implies(0 <= j and j < _it, polarity_flips[j] == 1 or polarity_flips[j] == -1))', 'i == _it']},
-    2: {'inv': ['forall(lambda j: implies(0 <= j and j < _it, tmp[j] == j + 1))', 'i == _it']},
-    3: {'inv': ['forall(lambda j: implies(0 <= j and j < _it, tmp[j] == j))', 'i == _it']},
+    2: {'inv': ['forall(lambda j: implies(0 <= j and j < _it, tmp[j] == j + 1))', 'i == _it'],
+        # L13a: a list whose sorted copy is 1..N is a permutation of 1..N
+        'exit_hints': ['isperm(variables_permutation, N, 1)']},
+    3: {'inv': ['forall(lambda j: implies(0 <= j and j < _it, tmp[j] == j))', 'i == _it'],
+        'exit_hints': ['isperm(clauses_permutation, M, 0)']},
     4: {'inv': ['len(substitution) == 2 * N + 1', 'i == 1 + _it',
-                'forall(lambda v: implies(1 <= v and v < i, substitution[v] == polarity_flips[v - 1] * variables_permutation[v - 1] '
-                'and substitution[2 * N + 1 - v] == -substitution[v]))']},
+                'forall(lambda v: implies(1 <= v and v < i, substitution[v] == polarity_flips[v - 1] * variables_permutation[v - 1]))',
+                'forall(lambda w: implies(2 * N + 1 - i < w and w <= 2 * N, substitution[w] == -substitution[2 * N + 1 - w]))',
+                # consequences kept explicit for the last loop: every filled slot is a literal over 1..N
+                'forall(lambda v: implies(1 <= v and v < i, 1 <= abs(substitution[v]) and abs(substitution[v]) <= N))',
+                'forall(lambda w: implies(2 * N + 1 - i < w and w <= 2 * N, 1 <= abs(substitution[w]) and abs(substitution[w]) <= N))']},
     5: {'inv': ['clen(out._clauses) == _it', 'out._numvar == N', 'cmaxabs(out._clauses) <= N', 'not chaszero(out._clauses)',
                 'forall(lambda j: implies(0 <= j and j < _it, cget(out._clauses, j) == imapsub(cget(F._clauses, clauses_mapping[j][0]), substitution, 2 * N + 1)))'],
         'modifies_objects': ['out'], 'modifies_fields': {'out': ['_clauses', '_numvar']}},
@@ -48,7 +54,7 @@ EXPLICIT_BAD = ('len(polarity_flips) != F._numvar or not forall(lambda j: implie
                 'or len(clauses_permutation) != clen(F._clauses) or not isperm(clauses_permutation, clen(F._clauses), 0)')
 
 CLASSMODELS = {}
-NOT_PYVC = True     # work in progress: not part of any check until every obligation discharges (DESIGN appendix C)
+NOT_PYVC = False
 
 CONTRACTS = {
     ('cnfgen/formula/basecnf.py', 'BaseCNF.number_of_variables'): {'inline_always': True},
@@ -83,7 +89,7 @@ CONTRACTS = {
                 'raises': {},
                 # whatever the random generator answers, the components are a sign vector and two permutations
                 'ensures': ['isperm(final("variables_permutation"), F._numvar, 1)',
-                            'isperm(final("clauses_mapping_old_positions"), clen(F._clauses), 0)'],
+                            'isperm(firsts(final("clauses_mapping")), clen(F._clauses), 0)'],
             },
         },
     },
